@@ -386,6 +386,90 @@ theorem single_field_corruption_rejected_na (cfg : Cfg) (now : Nat) (s : State) 
     rw [hd, hnode, ← hvalid] at hs'
     exact hs hs'
 
+/-! ### the builder's direct entry points (`ApplyChannelUpdate`, `UpdateEdge`) -/
+
+/-- `Builder.UpdateEdge`: a policy changes only for a known channel, only at the update's own
+    (channel, direction), only to its policy and only if its timestamp is strictly newer than the
+    stored one; channels and nodes are untouched. -/
+theorem update_edge_fresh (s : State) (u : ChanUpd) :
+    (updateEdge s u).1.g.chans = s.g.chans ∧ (updateEdge s u).1.g.nodes = s.g.nodes ∧
+    ((updateEdge s u).1.g.pols = s.g.pols ∨
+     ((∃ ci, lookup u.scid s.g.chans = some ci) ∧ UpdFresh s.g.pols u ∧
+      (updateEdge s u).1.g.pols = upsert (u.scid, dirOf u.cf) u.policy s.g.pols ∧
+      (updateEdge s u).2 = .ok)) := by
+  generalize h : updateEdge s u = r
+  unfold updateEdge at h
+  split at h
+  · subst h; simp
+  · rename_i ci hci
+    split at h
+    · rename_i old hold
+      split at h
+      · subst h; simp
+      · rename_i hnew
+        subst h
+        refine ⟨rfl, rfl, Or.inr ⟨⟨ci, hci⟩, ?_, rfl, rfl⟩⟩
+        intro o ho
+        rw [hold] at ho; cases ho; omega
+    · rename_i hnone
+      subst h
+      refine ⟨rfl, rfl, Or.inr ⟨⟨ci, hci⟩, ?_, rfl, rfl⟩⟩
+      intro o ho
+      rw [hnone] at ho; cases ho
+
+/-- `Builder.ApplyChannelUpdate` (updates from onion failures): a policy changes only at the update's
+    own (channel, direction) of a known channel, only to its policy, and only if the update is
+    signed by the node owning that direction, has consistent fields and a timestamp strictly
+    newer than the stored one. -/
+theorem apply_channel_update_authentic_fresh (s : State) (u : ChanUpd) (k : Scid × Nat)
+    (hne : lookup k (applyChannelUpdate s u).1.g.pols ≠ lookup k s.g.pols) :
+    (u.scid, dirOf u.cf) = k ∧ lookup k (applyChannelUpdate s u).1.g.pols = some u.policy ∧
+    (∃ ci, lookup u.scid s.g.chans = some ci ∧ u.sig = Sig.mk (owner ci (dirOf u.cf)) u.digest ∧
+      fieldsOk ci.cap u = true) ∧
+    UpdFresh s.g.pols u ∧
+    (applyChannelUpdate s u).1.g.chans = s.g.chans ∧ (applyChannelUpdate s u).1.g.nodes = s.g.nodes := by
+  generalize h : applyChannelUpdate s u = r at hne ⊢
+  unfold applyChannelUpdate at h
+  split at h
+  · subst h; exact absurd rfl hne
+  · rename_i ci hci
+    split at h
+    · subst h; exact absurd rfl hne
+    · rename_i hf
+      split at h
+      · subst h; exact absurd rfl hne
+      · rename_i hv
+        subst h
+        obtain ⟨hc, hn, hp⟩ := update_edge_fresh s u
+        rcases hp with hp | ⟨_, hfresh, hp, _⟩
+        · exact absurd (by simp only; rw [hp]) hne
+        · simp only at hne ⊢
+          rw [hp] at hne ⊢
+          have hsig : u.sig = Sig.mk (owner ci (dirOf u.cf)) u.digest :=
+            (verify_iff _ _ _).1 (by simpa using hv)
+          by_cases hk : (u.scid, dirOf u.cf) = k
+          · refine ⟨hk, by rw [← hk, lookup_upsert_self], ⟨ci, hci, hsig, by simpa using hf⟩,
+              hfresh, hc, hn⟩
+          · exact absurd (lookup_upsert_ne _ _ (fun e => hk e.symm)) hne
+
+/-- equal or older timestamps never replace a stored policy through either entry point -/
+theorem direct_entries_not_newer_unchanged (s : State) (u : ChanUpd) (old : Policy)
+    (hold : lookup (u.scid, dirOf u.cf) s.g.pols = some old) (hle : u.ts ≤ old.ts) :
+    (updateEdge s u).1.g.pols = s.g.pols ∧ (applyChannelUpdate s u).1.g.pols = s.g.pols := by
+  have h1 : (updateEdge s u).1.g.pols = s.g.pols := by
+    rcases (update_edge_fresh s u).2.2 with h | ⟨_, hf, _, _⟩
+    · exact h
+    · have := hf old hold; omega
+  refine ⟨h1, ?_⟩
+  unfold applyChannelUpdate
+  split
+  · rfl
+  · split
+    · rfl
+    · split
+      · rfl
+      · exact h1
+
 /-! ### histories -/
 
 /-- the state after a whole history of remote submissions (clock value, peer, message) -/
